@@ -118,9 +118,7 @@ def run(rep: Report) -> None:
                 continue
             if rs.kind == "assert" and _assert_infeasible(prog, resolver, rs):
                 continue
-            if x in builtin_names and not in_zone(prog, rs.func):
-                continue
-            bad[x] = rs
+            bad[x] = rs      # algebra code included: escapes holds feasible raise sites only (context-pruned)
         for x, rs in sorted(bad.items()):
             fi = prog.functions[rs.func]
             rep.fail("R17.2", f"{e}<-{rs.func}:{x}", f"{x} from {rs.func} can escape {e}: parsing may fail with something other than "
